@@ -9,8 +9,9 @@ import (
 // ByLines is a sequential reader for a named file, reading lines not including
 // '\n', and it avoids allocations by yielding the underlying buffer slices.
 type ByLines struct {
-	f *os.File
-	b *bufio.Reader
+	f   *os.File
+	b   *bufio.Reader
+	pos int64 // number of bytes of the file consumed so far, skipped blank lines included
 }
 
 // OpenByLines opens the named file fn, and returns a ByLines reader.
@@ -36,6 +37,7 @@ func (b *ByLines) Read() ([]byte, error) {
 		if err != nil {
 			return nil, err
 		}
+		b.pos += int64(len(bytes))
 
 		if len(bytes) > 1 {
 			return bytes[:len(bytes)-1], nil // remove the '\n'
@@ -50,5 +52,9 @@ func (b *ByLines) Rewind() error {
 		return err
 	}
 	b.b.Reset(b.f)
+	b.pos = 0
 	return nil
 }
+
+// Pos is the offset in the file just past the last line returned by Read.
+func (b *ByLines) Pos() int64 { return b.pos }
